@@ -281,8 +281,8 @@ func confirmC09(b *Build, c *spec.DiskCase, kind string) (bool, string) {
 		return true, "CPU time above 10 s: " + desc
 	case r.PeakLive > B:
 		return true, "live heap above 512 MiB + 64*S: " + desc
-	case kind == "budget-alloc" && r.Outcome != "panic":
-		return true, "a single allocation request above 512 MiB + 64*S was made and succeeded: " + desc
+	case kind == "budget-alloc" && r.HeapSys > B && r.TotalAlloc > B:
+		return true, fmt.Sprintf("a single allocation request above 512 MiB + 64*S was made and succeeded (heap obtained from the OS %d, allocated during the call %d): %s", r.HeapSys, r.TotalAlloc, desc)
 	}
 	return false, desc
 }
@@ -359,9 +359,9 @@ func checkDisk(o checkOpts, prop string) int {
 	thorough := o.tier == "thorough"
 	cfg := spec.DiskCfg{Prop: prop, Seed: o.seed, Tier: o.tier, Shards: o.procs, Only: -1, StepCap: 200_000_000,
 		TestData: filepath.Join(b.Repo, "test-data"), Corpus: "small", DeadlineS: 3600}
-	cfg.MaxSampled = uint64(o.n(2500, 250000))
+	cfg.MaxSampled = uint64(o.n(2500, 60000))
 	if prop == "C09" {
-		cfg.MaxSampled = uint64(o.n(2500, 100000))
+		cfg.MaxSampled = uint64(o.n(2500, 40000))
 	}
 	if thorough {
 		cfg.Corpus = "full"
